@@ -452,6 +452,33 @@ func genThresholdPair(r *Rng, key uint64) (ma, mb *ISet, op string, target int) 
 		if target == 65535 {
 			R.Remove(edgeVal16(r))
 		}
+	} else if target >= 4090 && target <= 4111 && r.Chance(0.25) {
+		// the run / bitmap size tie: a run chunk costs 2+4n bytes, a bitmap chunk 8192, so n = 2044..2058 runs is where the
+		// cheapest form of a chunk with just over 4096 values changes; pairs and single values make exactly n runs
+		runsVsSingles = true
+		n := 2044 + r.Intn(15)
+		if 2*n < target {
+			n = (target + 1) / 2
+		}
+		pairs, singles := target-n, 2*n-target
+		R = NewISet()
+		pos := r.Range(0, 20)
+		for i := 0; i < n; i++ {
+			isPair := pairs > 0 && (singles == 0 || r.Intn(pairs+singles) < pairs)
+			if isPair {
+				R.AddRange(pos, pos+1)
+				pairs--
+				pos += 2
+			} else {
+				R.Add(pos)
+				singles--
+				pos++
+			}
+			pos += 1 + r.Range(0, 25)
+		}
+		if mx, _ := R.Max(); mx > 65535 || R.Card() != uint64(target) {
+			R = ivsToSet(spreadN(r, target))
+		}
 	} else if target <= 4111 && r.Chance(0.35) {
 		runsVsSingles = true
 		// k short runs (length 2..4, the shortest that still make a run chunk run-efficient) with isolated values in
